@@ -1208,6 +1208,12 @@ pub fn run_hist(
         }
     }
     let panics = peek_panics();
+    // a panic raised by the DRIVER's own code (its source paths are relative, raindb's - a path
+    // dependency - absolute) is a defect of the machinery, never an observation about raindb
+    if let Some(p) = panics.iter().find(|p| p.location.starts_with("src/")) {
+        eprintln!("driver defect: panic in the harness at {}: {}", p.location, p.message);
+        std::process::exit(2);
+    }
     let during = if status == "clientpanic" { sess.wd.current() } else { String::new() };
     for p in &panics {
         sink.emit_json(
